@@ -476,3 +476,28 @@ def add_virtual_tail(rng, base):
     if '|' in base:
         return base
     return base[:-1] + '.[#VV]}'
+
+
+# ------------------------------------------------------------------------------- determinism experiments
+def dump_iter(resolver):
+    """canonical dump of every level, taken when resolve_iter yields it; an exception ends the list"""
+    out = []
+    try:
+        for meta, mol in resolver.resolve_iter():
+            out.append(canon_result(meta, mol))
+    except Exception as exc:            # noqa: BLE001
+        out.append('EXC:' + type(exc).__name__)
+    return out
+
+
+def dump_all_from_string(s, laa, legacy):
+    from cgsmiles.resolve import MoleculeResolver
+    try:
+        r = MoleculeResolver.from_string(s, last_all_atom=laa, legacy=legacy)
+    except Exception as exc:            # noqa: BLE001
+        return ['CTOR:' + type(exc).__name__]
+    return dump_iter(r)
+
+
+def canon_dicts(dicts):
+    return json.dumps([[[name, enc_graph(g)] for name, g in d.items()] for d in dicts])
